@@ -1,5 +1,6 @@
 import GlueVerif.Sexp
 import GlueVerif.Model.Coords
+import GlueVerif.Model.C15Float
 /-! Line-protocol driver for C15 (world coordinates, their links and inverses). -/
 open GlueVerif GlueVerif.Sexp GlueVerif.ArrayUtil GlueVerif.Coords
 
@@ -67,17 +68,64 @@ def coordErrAtom : CoordErr → Sexp
   | .linAlgError => .atom "linalg-error"
   | .notModelled => .atom "not-modelled"
 
-def eqArr (py : Sexp) (spec : Except ViewErr Arr) : Bool :=
+/-! ### binary64 acceptance (rules of `Model/C15Float.lean`; tolerances are computed here from the
+exact case, never by Python) -/
+
+def closeList (py exact tol : List Rat) : Bool :=
+  py.length == exact.length &&
+    ((py.zip (exact.zip tol)).all fun t => Flt.rabs (t.1 - t.2.1) ≤ t.2.2) && tol.length == exact.length
+
+/-- Comparison (a): the model predicts the exact value; a double within the acceptance rule of that
+value is what the model predicts the implementation to return. -/
+def echoList (py exact tol : List Rat) : List Rat :=
+  if py.length != exact.length then exact
+  else (py.zip (exact.zip tol)).map fun t => if Flt.rabs (t.1 - t.2.1) ≤ t.2.2 then t.1 else t.2.1
+
+def eqArr (py : Sexp) (spec : Except ViewErr Arr) (tol : Unit → List Rat) : Bool :=
   match spec with
-  | .ok a => (sexpToArr? py).map (· == a) |>.getD false
+  | .ok a =>
+    match sexpToArr? py with
+    | some b => b.shape == a.shape && (b.data == a.data || closeList b.data a.data (tol ()))
+    | none => false
   | .error .indexError => py == .atom "index-error"
   | .error .domain => false
 
+def echoArr (py : Sexp) (impl : Except ViewErr Arr) (tol : Unit → List Rat) : Except ViewErr Arr :=
+  match impl with
+  | .ok a =>
+    match sexpToArr? py with
+    | some b =>
+      if b.shape == a.shape && b.data != a.data then .ok ⟨a.shape, echoList b.data a.data (tol ())⟩ else .ok a
+    | none => .ok a
+  | e => e
+
+/-- `exEq` up to the acceptance rule is not needed: model and Spec are both exact. -/
 def exEq (a b : Except ViewErr Arr) : Bool :=
   match a, b with
   | .ok x, .ok y => x == y
   | .error x, .error y => x == y
   | _, _ => false
+
+/-- Source index tuples of the elements of `full[view]` (`[]` when the view is rejected). -/
+def ptsOf (sh : List Nat) (v : View) : List (List Nat) :=
+  match viewPoints sh v with
+  | .ok (_, pts) => pts
+  | .error _ => []
+
+/-- Forward tolerance of world axis `a` (numpy order) at every element of the view. -/
+def fwdTols (c : Coord) (a : Nat) (pts : List (List Nat)) : List Rat :=
+  pts.map fun idx => Flt.fwdTol c (c.n - 1 - a) (toFits (natPos idx))
+
+/-- Per element of the view: exact world values (FITS order) and their forward tolerances. -/
+def worldWithTols (c : Coord) (pts : List (List Nat)) : List (List Rat × List Rat) :=
+  pts.map fun idx =>
+    let x := toFits (natPos idx)
+    (c.p2w x, (List.range c.n).map fun w => Flt.fwdTol c w x)
+
+/-- Tolerance of the world→pixel link of pixel axis `i` (numpy order) at every element: the
+inverse applied to world values that themselves carry the forward tolerance. -/
+def w2pTols (c : Coord) (cx : Flt.InvCtx) (i : Nat) (ws : List (List Rat × List Rat)) : List Rat :=
+  ws.map fun t => Flt.invTol cx (c.n - 1 - i) t.1 t.2
 
 /-! ### families -/
 
@@ -90,48 +138,66 @@ def stepXform (cin : CoordIn) (pts : List (List Rat)) (pyout : Sexp) : String :=
     driverResult a (pyout == a) true true ("ctor-" ++ Sexp.toString a)
   | .ok c =>
     let n := c.n
+    let cx := Flt.invCtx c
     let corr : Sexp := .list ((List.range n).map fun w => ofBools ((List.range n).map fun p => c.corr w p))
     let deps : Sexp := .list ((List.range n).map fun a => ofNats (Impl.dependentAxes c a))
+    let xs := pts.map fun x => x.take n
     let p2w := pts.map c.p2w
     let rt := p2w.map c.w2p
     let w2p := pts.map c.w2p
-    let impl : Sexp := .list [corr, deps, .list (p2w.map ratsToSexp), .list (rt.map ratsToSexp),
-      .list (w2p.map ratsToSexp)]
+    let zero := (List.range n).map fun _ => (0 : Rat)
+    -- acceptance rules (Model/C15Float.lean), from the exact case alone
+    let fT := pts.map fun x => (List.range n).map fun k => Flt.fwdTol c k x
+    let rT := (pts.zip fT).map fun t => (List.range n).map fun p => Flt.invTol cx p (c.p2w t.1) t.2
+    let iT := pts.map fun x => (List.range n).map fun p => Flt.invTol cx p x zero
+    let closeAll (py exact tol : List (List Rat)) : Bool :=
+      py.length == exact.length && (py.zip (exact.zip tol)).all fun t => closeList t.1 t.2.1 t.2.2
+    let echoAll (py exact tol : List (List Rat)) : List (List Rat) :=
+      if py.length != exact.length then exact
+      else (py.zip (exact.zip tol)).map fun t => echoList t.1 t.2.1 t.2.2
     -- Spec on an output: forward values are the affine map of the matrix; the round trip is the
-    -- identity; `world_to_pixel` is a right inverse of `pixel_to_world` (checked by applying the
-    -- forward map to python's answer, independently of the model's own inverse).
-    let specOk (p2wO rtO w2pO : List (List Rat)) : Bool :=
-      p2wO == p2w && rtO == pts.map (fun x => x.take n) && w2pO.map c.p2w == pts.map (fun x => x.take n)
-    let ok := match pyout with
+    -- identity; `world_to_pixel` is the inverse map — each up to the binary64 acceptance rule.
+    let parsed := match pyout with
       | .list [pc, _, a, b, d] =>
-        pc == corr &&
-        (match (a.toList?.bind (·.mapM sexpToRats?)), (b.toList?.bind (·.mapM sexpToRats?)),
-               (d.toList?.bind (·.mapM sexpToRats?)) with
-         | some a', some b', some d' => specOk a' b' d'
-         | _, _, _ => false)
-      | _ => false
+        match (a.toList?.bind (·.mapM sexpToRats?)), (b.toList?.bind (·.mapM sexpToRats?)),
+              (d.toList?.bind (·.mapM sexpToRats?)) with
+        | some a', some b', some d' => some (pc, a', b', d')
+        | _, _, _ => none
+      | _ => none
+    let ok := match parsed with
+      | some (pc, a, b, d) => pc == corr && closeAll a p2w fT && closeAll b xs rT && closeAll d w2p iT
+      | none => false
+    let (ea, eb, ed) := match parsed with
+      | some (_, a, b, d) => (echoAll a p2w fT, echoAll b rt rT, echoAll d w2p iT)
+      | none => (p2w, rt, w2p)
+    let impl : Sexp := .list [corr, deps, .list (ea.map ratsToSexp), .list (eb.map ratsToSexp),
+      .list (ed.map ratsToSexp)]
     let depsOk := (List.range n).all fun a =>
       needSubset c a (Impl.dependentAxes c a) &&
       closedUnder c.corr n (coupledAxes c [n - 1 - a] [n - 1 - a]) &&
       closedUnder c.corr n (coupledAxes c [a] []) && invRowSubset c a (Impl.worldDep c a)
-    driverResult impl ok (specOk p2w rt w2p && depsOk) c.wf
+    let loose := (rT.any fun r => r.any (· > 1 / 4))
+    driverResult impl ok (rt == xs && depsOk) (c.wf && Flt.rangeOk c)
       (match c with
        | .identity _ => "identity"
        | .affine _ _ _ =>
-         if (List.range n).all (fun a => (Impl.dependentAxes c a).length == 1) then "affine-separable"
-         else if (List.range n).all (fun a => (Impl.dependentAxes c a).length == n) then "affine-coupled"
-         else "affine-blocks")
+         (if (List.range n).all (fun a => (Impl.dependentAxes c a).length == 1) then "affine-separable"
+          else if (List.range n).all (fun a => (Impl.dependentAxes c a).length == n) then "affine-coupled"
+          else "affine-blocks") ++ (if loose then "/inv-loose" else ""))
 
 /-- `world`: every world component of a dataset under a view. -/
 def stepWorld (c : Coord) (sh : List Nat) (v : View) (pyout : Sexp) : String :=
   let n := c.n
   if sh.length ≠ n then bad "world-ndim" else
+  let pts := ptsOf sh v
   let impls := (List.range n).map fun a => Impl.worldView c sh a v
   let specs := (List.range n).map fun a => Spec.worldView c sh a v
-  let impl : Sexp := .list (impls.map exArrToSexp)
-  let ok := match pyout.toList? with
-    | some outs => outs.length == n && (outs.zip specs).all fun p => eqArr p.1 p.2
-    | none => false
+  let tols := (List.range n).map fun a => fun (_ : Unit) => fwdTols c a pts
+  let outs := pyout.toList?.getD []
+  let ok := outs.length == n && (outs.zip (specs.zip tols)).all fun p => eqArr p.1 p.2.1 p.2.2
+  let impl : Sexp :=
+    if outs.length == n then .list ((outs.zip (impls.zip tols)).map fun p => exArrToSexp (echoArr p.1 p.2.1 p.2.2))
+    else .list (impls.map exArrToSexp)
   let implok := (impls.zip specs).all fun p => exEq p.1 p.2
   driverResult impl ok implok c.wf (Impl.branch c sh 0 v)
 
@@ -140,27 +206,40 @@ python = per numpy axis `(from_needed_p2w p2w from_needed_w2p w2p)`. -/
 def stepLink (c : Coord) (sh : List Nat) (v : View) (pyout : Sexp) : String :=
   let n := c.n
   if sh.length ≠ n then bad "link-ndim" else
+  let cx := Flt.invCtx c
+  let pts := ptsOf sh v
+  let ws := Thunk.mk fun _ => worldWithTols c pts
   let impls := (List.range n).map fun i =>
-    (Impl.dependentAxes c i, Impl.linkP2W c sh i v, Impl.linkW2P c sh i v)
-  let impl : Sexp := .list (impls.map fun t =>
-    .list [ofNats t.1, exArrToSexp t.2.1, ofNats t.1, exArrToSexp t.2.2])
-  let ok := match pyout.toList? with
-    | some outs => outs.length == n && ((List.range n).zip outs).all fun p =>
-      match p.2 with
+    (Impl.dependentAxes c i, Impl.linkP2W c sh i v, Impl.linkW2P c sh i v,
+     (fun (_ : Unit) => fwdTols c i pts), (fun (_ : Unit) => w2pTols c cx i ws.get))
+  let outs := pyout.toList?.getD []
+  let ok := outs.length == n && (outs.zip impls).zipIdx.all fun q =>
+      let i := q.2
+      let t := q.1.2
+      match q.1.1 with
       | .list [_, a, _, b] =>
-        eqArr a (Spec.linkP2W c sh p.1 v) && eqArr b (Spec.linkW2P c sh p.1 v) &&
-        eqArr b (Spec.pixelView sh p.1 v)
+        eqArr a (Spec.linkP2W c sh i v) t.2.2.2.1 && eqArr b (Spec.linkW2P c sh i v) t.2.2.2.2 &&
+        eqArr b (Spec.pixelView sh i v) t.2.2.2.2
       | _ => false
-    | none => false
+  let pyPair (k : Nat) : Sexp × Sexp :=
+    match outs[k]? with
+    | some (.list [_, a, _, b]) => (a, b)
+    | _ => (.atom "none", .atom "none")
+  let impl : Sexp := .list (impls.zipIdx.map fun q =>
+    let t := q.1
+    let py := pyPair q.2
+    .list [ofNats t.1, exArrToSexp (echoArr py.1 t.2.1 t.2.2.2.1), ofNats t.1,
+           exArrToSexp (echoArr py.2 t.2.2.1 t.2.2.2.2)])
   let implok := ((List.range n).zip impls).all fun p =>
-    exEq p.2.2.1 (Spec.linkP2W c sh p.1 v) && exEq p.2.2.2 (Spec.linkW2P c sh p.1 v) &&
-    exEq p.2.2.2 (Spec.pixelView sh p.1 v)
+    exEq p.2.2.1 (Spec.linkP2W c sh p.1 v) && exEq p.2.2.2.1 (Spec.linkW2P c sh p.1 v) &&
+    exEq p.2.2.2.1 (Spec.pixelView sh p.1 v)
+  let loose := (w2pTols c cx 0 (worldWithTols c (pts.take 1 ++ pts.reverse.take 1))).any (· > 1 / 4)
   driverResult impl ok implok c.wf
-    (match v with
+    ((match v with
      | .all => "all"
      | .basic _ => "basic"
      | .arrays _ _ => if n == 1 then "arrays-1d-bare" else "arrays"
-     | .mask _ => "mask")
+     | .mask _ => "mask") ++ (if loose then "/inv-loose" else ""))
 
 def step (line : String) : String :=
   match Sexp.parse line with
